@@ -91,3 +91,151 @@ impl Simulator for CliTableDriver {
         }
     }
 }
+
+/// C12 at process level.
+pub struct CliRobustDriver;
+
+impl CliRobustDriver {
+    fn plan(&self, seed: u64, run: u64) -> clisim::RobustPlan {
+        let mut rng = prng_for(seed, clisim::SIM_ID * 1000 + 112, run);
+        clisim::gen_robust_plan(&mut rng)
+    }
+}
+
+impl Simulator for CliRobustDriver {
+    fn name(&self) -> &'static str {
+        "clisim"
+    }
+    fn rule(&self) -> String {
+        "one stored input per run (as in iosim) given to the real rsbdd binary under a seeded option set over -t -v -m -r -b N --filter --retain-choices -d -p -o, \
+         a seeded input channel and optionally one file-system fault (input / ordering path missing or a directory, output path in a missing directory or /dev/full); \
+         oracle: exit status in {0,1,2}, staged faults reported; distinct = distinct plan digest; non-trivial = a storage or file-system fault actually applied"
+            .to_string()
+    }
+    fn components_real(&self) -> Vec<String> {
+        vec!["rsbdd binary built from /repo's working tree".into()]
+    }
+    fn components_stub(&self) -> Vec<String> {
+        vec!["argv, stdin, formula / ordering / output files and their file-system state, tick budget of the child".into()]
+    }
+    fn runs(&self, thorough: bool) -> u64 {
+        if thorough {
+            600_000
+        } else {
+            25_000
+        }
+    }
+    fn run_one(&self, seed: u64, run: u64) -> RunOutcome {
+        clisim::execute_robust(&self.plan(seed, run))
+    }
+    fn plan_json(&self, seed: u64, run: u64) -> Value {
+        serde_json::to_value(self.plan(seed, run)).expect("plan serialises")
+    }
+    fn minimise(&self, seed: u64, run: u64, v: &Violation) -> (Value, Violation, usize) {
+        let plan = self.plan(seed, run);
+        let n = plan.formula.base.len();
+        let (p, mv) = clisim::minimise_robust(&plan, v);
+        (serde_json::to_value(p).expect("plan serialises"), mv, n)
+    }
+    fn replay(&self, plan: &Value) -> RunOutcome {
+        match serde_json::from_value::<clisim::RobustPlan>(plan.clone()) {
+            Ok(p) => clisim::execute_robust(&p),
+            Err(e) => {
+                eprintln!("harness error: replay plan does not parse: {e}");
+                std::process::exit(2);
+            }
+        }
+    }
+}
+
+/// C14-D7: files written by the binary.
+pub struct CliExportDriver;
+
+impl CliExportDriver {
+    fn plan(&self, seed: u64, run: u64) -> clisim::ExportPlan {
+        let mut rng = prng_for(seed, clisim::SIM_ID * 1000 + 114, run);
+        clisim::gen_export_plan(&mut rng)
+    }
+}
+
+impl Simulator for CliExportDriver {
+    fn name(&self) -> &'static str {
+        "clisim"
+    }
+    fn rule(&self) -> String {
+        "one generated formula per run exported by the real rsbdd binary with -d FILE -p FILE under a seeded filter spelling, channel, optional -m and ordering file; \
+         the -d file is read back as a decision graph (edges missing because of the filter lead to the dropped leaf) and compared with the reference evaluator, \
+         the -p file must equal the library's export of the same text; distinct = distinct plan digest; non-trivial = exit 0 with a non-constant function"
+            .to_string()
+    }
+    fn components_real(&self) -> Vec<String> {
+        vec!["rsbdd binary built from /repo's working tree".into()]
+    }
+    fn components_stub(&self) -> Vec<String> {
+        vec!["argv, stdin, formula / ordering / output files on tmpfs".into()]
+    }
+    fn runs(&self, thorough: bool) -> u64 {
+        if thorough {
+            300_000
+        } else {
+            10_000
+        }
+    }
+    fn run_one(&self, seed: u64, run: u64) -> RunOutcome {
+        clisim::execute_export(&self.plan(seed, run))
+    }
+    fn plan_json(&self, seed: u64, run: u64) -> Value {
+        serde_json::to_value(self.plan(seed, run)).expect("plan serialises")
+    }
+    fn minimise(&self, seed: u64, run: u64, v: &Violation) -> (Value, Violation, usize) {
+        // formula shrinking only
+        let plan = self.plan(seed, run);
+        let n = plan.formula.size();
+        let same = |p: &clisim::ExportPlan| clisim::execute_export(p).violations.into_iter().find(|x| x.oracle == v.oracle && x.site == v.site);
+        let mut best = plan.clone();
+        let mut best_v = v.clone();
+        let mut budget = 120usize;
+        for k in 0..3 {
+            let mut c = best.clone();
+            match k {
+                0 => c.noise = 0,
+                1 => c.ordering = None,
+                _ => c.channel = clisim::Channel::Evaluate,
+            }
+            if let Some(nv) = same(&c) {
+                best = c;
+                best_v = nv;
+            }
+        }
+        loop {
+            let mut improved = false;
+            for cand in crate::model::fast::shrink_candidates(&best.formula) {
+                if budget == 0 {
+                    break;
+                }
+                budget -= 1;
+                let mut c = best.clone();
+                c.formula = cand;
+                if let Some(nv) = same(&c) {
+                    best = c;
+                    best_v = nv;
+                    improved = true;
+                    break;
+                }
+            }
+            if !improved || budget == 0 {
+                break;
+            }
+        }
+        (serde_json::to_value(best).expect("plan serialises"), best_v, n)
+    }
+    fn replay(&self, plan: &Value) -> RunOutcome {
+        match serde_json::from_value::<clisim::ExportPlan>(plan.clone()) {
+            Ok(p) => clisim::execute_export(&p),
+            Err(e) => {
+                eprintln!("harness error: replay plan does not parse: {e}");
+                std::process::exit(2);
+            }
+        }
+    }
+}
